@@ -249,3 +249,22 @@ UNITS['hqueue'] = dict(
       (r'^HeterEventDispatcherBase<', 'record', 'DispatcherBase'),
     ],
 )
+
+UNITS['eventutil'] = dict(
+    tu='inst/eventutil.cpp', filter=['eventpp::removeListener', 'eventpp::hasListener', 'eventpp::hasAnyListener'], std='c++11',
+    facts_only=False, no_root=True,
+    free_functions=['removeListener', 'hasListener', 'hasAnyListener'],
+    names={'VArg': 'VArg'},
+    value_records=['VArg'],
+    opaque_records=['VArg', 'CLT', 'EDT'],
+    ghost_sig=[],
+    type_rules=[
+      (r'Handle_?$', 'wp', 'Handle'),
+      (r'::Event$', 'builtin', 'int'),
+      (r'^FnPtr$|^void \(\*(const)?\)\(VArg\)$|::Callback_?$', 'builtin', 'FnPtr'),
+      (r'^CallbackList<', 'record', 'CLT'),
+      (r'^CallbackListBase<', 'record', 'CLT'),
+      (r'^EventDispatcher<', 'record', 'EDT'),
+      (r'^EventDispatcherBase<', 'record', 'EDT'),
+    ],
+)
